@@ -68,6 +68,18 @@ META = {
                 tech="exhaustive enumeration of bodies x chunk compositions x extensions x trailers and of all chunk-size strings up to a length",
                 text="All bodies <= 4/6 bytes over 4 byte values in every chunk composition decode exactly through both parsers; every chunk-size string <= 3/4 chars over 15 characters is accepted iff it is plain hex.",
                 note="Whitespace-padded hex sizes are don't-care (RFC 7230 BWS)."),
+    "C07": dict(cat="model_checking", eng="E1 over a fake clock", ref="3 (C07)",
+                tech="stateless deviation-bounded exploration of clock behaviour (consumed time, sleep overshoot, backward steps, stalls) around the real Doist.do() real-time loop",
+                text="Doist(real=True) paced by MonoTimer runs on a fake clock; every execution with <= 2/3 deviations is checked: cycle k never starts before k tocks of true time; without clock steps the start times equal a lossless pacing model; tock set at construction or assigned before the run.",
+                note="Fake clock installed as module global `time` of hio.base.doing and hio.help.timing; forward jumps excluded as in the statement."),
+    "C14": dict(cat="exploration", eng="E3 product enumeration", ref="3 (C14)",
+                tech="exhaustive product enumeration of request specifications through the real Requester/Client and Requestant/buildEnviron, compared with the specification via a reference urlencoded reader",
+                text="9 methods x 7 paths x query dicts over 10 hostile atoms x header sets x 9 bodies (raw incl. all byte values, JSON, form) x explicit Content-Length: method, path, query arguments, headers and body bytes must be recovered.",
+                note="GET carries no body by design; header values are legal field values; form fields compared as body bytes only."),
+    "C18": dict(cat="model_checking", eng="E1 over FakeNet + stdlib parser", ref="3 (C18)",
+                tech="stateless deviation-bounded exploration of request sequences x WSGI app behaviours x partial sends; wire bytes judged by an independent HTTP parser",
+                text="1-3 requests per connection (HTTP/1.0/1.1, keep-alive/close, pipelined or sequential), scripted WSGI apps (status, Content-Length exact/absent/short, empty pieces); the received byte stream must parse into exactly the expected responses in order, each self-delimiting while the connection stays open, closed iff not persistent.",
+                note="An unframed response to an HTTP/1.0 keep-alive request can only be delimited by closing (RFC 7230): expected as non-persistent."),
     "C26": dict(cat="exploration", eng="E3 full enumeration", ref="3 (C26)",
                 tech="exhaustive enumeration of small input domains against arithmetic written from the statement",
                 text="Every integer below 2^18/2^22 x lengths 1..6 plus power-of-64 boundaries; every Base64 string up to length 3/4; every byte string up to 2/3 bytes x admissible sextet counts.",
